@@ -373,13 +373,12 @@ Schema::Evaluate(const std::string& input) const {
 }
 
 void Schema::TriggerParse(const EntityUID target) {
-  ParseCst(target);
   const auto expansion = Graph().ExpandOutputs({ target });
-  const auto orderedList = Graph().Sort(expansion);
-  for (const auto dependant : orderedList) {
-    if (dependant != target) {
-      ParseCst(dependant);
-    }
+  for (const auto uid : expansion) {
+    info.at(uid).Reset();
+  }
+  for (const auto entity : Graph().Sort(expansion)) {
+    ParseCst(entity);
   }
 }
 
